@@ -87,6 +87,10 @@ CHECKS = {
   technique="Coq proof (each operation's result depends only on the denoted polynomial: op (l ++ zeros) ~ op l, derived from the C07 equations on raw lists) + differential correspondence of every public function on p and on p with stored leading zeros, owned and borrowed",
   text="37 theorems C17_* (props/C17.v): equality iff same denotation, equal polynomials hash equally, accessors report a non-zero leading coefficient, encode uses the normalised coefficients, and one value-semantics theorem per operation and argument position of the basic API and the multiplication family (after the repair of slow_square / square / truncate / Hash). Tied by 17363 cases x 2 profiles; the C08/C09 API functions are covered by direct comparison op(p) vs op(p with k stored zeros), k in {1,2,17} (945 comparisons, all SAME).",
   note="Display and decode(encode p) are correspondence-only; C08/C09 functions are covered by the direct comparison only, not by theorems."),
+ "C08": dict(
+  technique="Coq proof (root bound and uniqueness of the interpolant; zerofier, Lagrange, divide-and-conquer and memoised interpolation, evaluation strategies, ZerofierTree, coset evaluate / interpolate, extrapolation variants) against the stdlib polynomial specification + differential correspondence incl. thread sweeps",
+  text="35 theorems C08_* (props/C08.v): every zerofier strategy (smart / fast / parallel / tree, any thread count) is the product of (X - r_i); Lagrange interpolation returns THE interpolant (uniqueness from the root bound); coset evaluation and interpolation are mutually inverse and equal Horner evaluation on the coset - unconditional for BFieldElement; evaluation strategies return Horner evaluations in input order; divide-and-conquer / parallel / batched (memoised) interpolation and every coset-extrapolation variant equal interpolate-then-evaluate, under the C09 reduction statements as hypotheses. PARTIAL: modular coset interpolation proved up to 2^17 codewords (even/odd recursion above is open), barycentric evaluation open. Tied by 2632 cases x 2 profiles + RAYON_NUM_THREADS / taskset sweeps.",
+  note="Theorems for the fast paths carry C06 / C07 / C09 statements as Section hypotheses (discharged for BFieldElement where stated); XFieldElement instances conditional. The division family is modelled a second time inside PolyInterp.v (pint_ names). Extra extraction directives: Word.wrap/wshr/wshl and rev -> zarith / List.rev."),
 }
 
 ORDER = ["C%02d" % i for i in range(1, 21)]
